@@ -88,6 +88,7 @@ func runC04(w *mc.Worker) {
 	if w.Tier == "quick" {
 		stage("w2-d1", "source trees of weight <= 2, nesting depth <= 1; balances {0,1,3,6,-2}^2; amounts {0,1,2,4,7}", 2, 1, balQ, amtQ)
 		stage("w3-d2", "source trees of weight <= 3, nesting depth <= 2; balances {0,1,3,6,-2}^2; amounts {0,1,2,4,7}", 3, 2, balQ, amtQ)
+		stage("w4-d2", "source trees of weight <= 4, nesting depth <= 2; balances {0,1,3,6,-2}^2; amounts {0,1,2,4,7}", 4, 2, balQ, amtQ)
 	} else {
 		stage("w3-d2-H", "source trees of weight <= 3, nesting depth <= 2; balances {0,1,3,6,-2,H}^2; amounts {0,1,2,4,7,H,H+3}", 3, 2, balT, amtT)
 		stage("w4-d2", "source trees of weight <= 4, nesting depth <= 2; balances {0,1,3,6,-2}^2; amounts {0,1,2,4,7}", 4, 2, balQ, amtQ)
